@@ -3,6 +3,7 @@ package tf
 // Rules that hold the repairs of the fourth triage list (F46-F57, DESIGN 8.11) in place, and the constructs of the findings that were recorded instead of repaired.
 
 import (
+	"golang.org/x/tools/go/cfg"
 	"fmt"
 	"go/ast"
 	"go/constant"
@@ -928,6 +929,76 @@ func runRegistryBalanced(c *Ctx) {
 				}
 			}
 			_ = info
+			return true
+		})
+		// ... and takes out every one of them: in the clean-up's loop no path reaches the next iteration (or leaves the loop) without the remove (round 8)
+		InspectNoLits(root.Body, func(m ast.Node) bool {
+			ds, ok := m.(*ast.DeferStmt)
+			if !ok {
+				return true
+			}
+			lit, ok := ast.Unparen(ds.Call.Fun).(*ast.FuncLit)
+			if !ok {
+				return true
+			}
+			li := p.LitInfo(lit)
+			if li == nil || !callsOn(li, "remove", true) {
+				return true
+			}
+			isRemove := func(nd ast.Node) bool {
+				hit := false
+				InspectNoLits(nd, func(x ast.Node) bool {
+					if call, ok := x.(*ast.CallExpr); ok {
+						if sel, ok := ast.Unparen(call.Fun).(*ast.SelectorExpr); ok && sel.Sel.Name == "remove" && ObjOf(li.Info(), sel.X) == reg {
+							hit = true
+						}
+					}
+					return true
+				})
+				return hit
+			}
+			g := li.CFG()
+			k := 0
+			ast.Inspect(li.Body, func(x ast.Node) bool {
+				var loop ast.Stmt
+				var body *ast.BlockStmt
+				switch l := x.(type) {
+				case *ast.RangeStmt:
+					loop, body = l, l.Body
+				case *ast.ForStmt:
+					loop, body = l, l.Body
+				}
+				if loop == nil {
+					return true
+				}
+				has := false
+				ast.Inspect(body, func(y ast.Node) bool {
+					if st, ok := y.(ast.Stmt); ok && isRemove(st) {
+						has = true
+					}
+					return true
+				})
+				if !has {
+					return true
+				}
+				var start *cfg.Block
+				for _, b := range g.Blocks {
+					if b.Stmt == loop && (b.Kind == cfg.KindRangeBody || b.Kind == cfg.KindForBody) {
+						start = b
+					}
+				}
+				if start == nil {
+					return true
+				}
+				k++
+				stop := func(b *cfg.Block) bool {
+					return b.Stmt == loop && (b.Kind == cfg.KindRangeLoop || b.Kind == cfg.KindForLoop || b.Kind == cfg.KindForPost || b.Kind == cfg.KindRangeDone || b.Kind == cfg.KindForDone)
+				}
+				c.Check(regionAllPathsHit(g, start, isRemove, stop, false), fmt.Sprintf("registry-balanced/%s/every#%d", root.Name, k), loop.Pos(), "every registered sidecar of the loop is taken out, whatever its last flush returned",
+					"the deferred clean-up of "+root.Name+" can finish an iteration without taking the sidecar out of the flush registry (a `continue` on a failed flush, say): the object stays registered after the receive returned, dirty, naming the output's metadata path; "+
+						"when the process receives the file again after the partial output was removed, the next flush of the registry (signal handler) writes the old bitmap over the fresh metadata - marks for chunks of a file of zeros")
+				return false
+			})
 			return true
 		})
 		c.Check(cleaned, "registry-balanced/"+root.Name, root.Pos(), "a deferred clean-up takes what was registered out of the flush registry",
